@@ -61,7 +61,7 @@ TABLE = {
     "mutants/reverts/revert_3daf52d.patch": ["C17"],
     "mutants/reverts/revert_f8ae736.patch": ["C17"],
     "mutants/reverts/revert_7a75e14.patch": ["C17"],
-    "mutants/reverts/revert_1e41e7e.patch": ["C17"],
+    "mutants/socks_udp_relay_not_rearmed_after_mapped_name.patch": ["C17"],  # revert of 1e41e7e alone does not compile (1368b87 builds on it)
     "mutants/reverts/revert_1368b87.patch": ["C17"],
     "mutants/tcp_inflight_not_released_on_drop.patch": ["C06"],
     "mutants/tcp_drop_fun_not_rearmed.patch": ["C06"],
